@@ -364,6 +364,13 @@ def _tvdref_part(g, res):
                                                 "field": fld.tolist()}})
 
 
+def weight(case):
+    sh = case["grid"]["shape"]
+    n = int(np.prod([k + 2 for k in sh]))
+    w = {"diff": 1, "conv": 1, "upw": 4, "upwdir": 1, "tvd01": 3, "tvdref": 6}[case["part"]]
+    return n * n * len(sh) * w
+
+
 def run_case(case):
     g = Grid(case["grid"])
     res = {"evals": 0, "nontrivial": 0, "findings": [], "outcomes": {}}
